@@ -181,6 +181,11 @@ def _act(r, i, e, occ):
             signal.signal(signal.SIGSEGV, signal.SIG_DFL)
             os.kill(os.getpid(), signal.SIGSEGV)
         os._exit(9)
+    if a == 'close_stdout':
+        # a test that closes sys.stdout (under --buffer: the runner's capture stream)
+        r.emit([r.simpid, 'fault', 'replace_stdout', i, 0])
+        sys.stdout.close()
+        return
     if a == 'swap_stdout':
         # a tidy test: remembers sys.stdout, installs its own stream, and puts back what it
         # remembered in a later phase (which, under --buffer, is the runner's capture buffer)
